@@ -324,6 +324,14 @@ CORPUS = [
     ["c42", "q7", "q8", "t0,0", "t0,1", "sq=0", "t0,0", "t0,1", "x", "u0,6", "u0,8"],
     ["c43", "c44", "c45", "p7", "p0", "t0,0", "t0,1", "t1,0", "t1,1", "t2,0", "t2,1", "u0,6", "u1,6", "u2,6", "t0,1", "t1,1", "t2,1"],
     ["c37", "c32", "c36", "p6", "p8", "t0,0", "t0,1", "t1,0", "t1,1", "t2,0", "t2,1"],
+    # an abort while a POOLED object holds partial content (text written into a result tree fragment at depth
+    # 1-3 or a with-param body; attribute / comment / PI bodies; nested XPath string and node-set work), then
+    # builders of the same things at the same depth, same and different stylesheets, inline and compiled
+    ["T46,6", "T48,0", "T46,8", "T47,8", "T46,7", "T48,2", "T46,0", "T3,0"],
+    ["T47,6", "T48,8", "T47,8", "T3,0", "T47,7", "T47,0", "T48,0", "T19,0", "T48,2", "T10,0"],
+    ["c46", "c47", "c48", "p6", "p7", "p8", "t0,0", "t2,2", "t0,2", "t1,0", "t2,2", "t1,2", "t0,1", "t2,1", "t1,1", "t1,2", "t0,2"],
+    ["T49,6", "T49,8", "T9,0", "T49,7", "T49,0", "T49,2", "T10,0", "T45,8"],
+    ["T50,6", "T50,8", "T2,0", "T50,7", "T4,0", "T50,0", "T48,0"],
 ]
 
 
@@ -612,7 +620,7 @@ def run(ctx):
         "ABSENT in this tree (hooks/C06_hook.diff not applied): the residue leg is skipped; leaks are only seen through outputs"
     perr = probe_sheets(impl)
     if perr:
-        ctx.broken.append("sheet probe: " + perr[:300])
+        ctx.broken.append("sheet probe: " + " / ".join(perr[:300].split("\n")))
     ctx.notes["aborting_sheets"] = [P.SHEETS[i][1] for i in FAILING]
     ctx.notes["planned_abort_kinds_that_only_warn_here"] = [P.SHEETS[i][1] for i in QUIET if P.SHEETS[i][0] != "ok"]
     facts = model_facts(model) if model else {}
